@@ -4,7 +4,7 @@ Each module defines  register(reg) -> {property_id: {unit_name: unit}}.
 """
 import importlib
 
-MODULES = ['util', 'inputfile', 'contextdb', 'tokenizer', 'collector', 'walker', 'visitor', 'parsingstate', 'encoder', 'enctables', 'parsers', 'latex2text', 'mathmode', 'delimited', 'structure', 'legacy', 'purity', 'nodesplit']
+MODULES = ['util', 'inputfile', 'contextdb', 'tokenizer', 'collector', 'walker', 'visitor', 'parsingstate', 'encoder', 'enctables', 'parsers', 'latex2text', 'mathmode', 'delimited', 'structure', 'legacy', 'purity', 'nodesplit', 'resources']
 REPLAYERS = {}
 EXTRA_ASSUMPTIONS = {}
 # evidence level per property when it is not 'proof' (bounded stand-ins are never counted as proved)
@@ -13,6 +13,9 @@ LEVELS = {'C18': 'exploration'}
 
 def make_replay(pid, o, model):
     from contracts import native_parse, native_l2t
+    if o.get('unit') == 'assumption-probe:deep-nesting' and o.get('kind') == 'probe':
+        from contracts import resources
+        return resources.replay_for(pid)(o, model)
     fn = {'C05': native_parse.replay_c05, 'C06': native_parse.replay_c06}.get(pid)
     if fn is None and pid in ('C03', 'C07', 'C12'):
         fn = native_l2t.replay_for(pid)
